@@ -42,23 +42,45 @@ def rec(i, kind, a=(), toks=(), u=(), lay=(), act=None, act0=None, ev0=None, ev1
 def run(rep):
     quick = rep.tier == "quick"
     rng = random.Random(rep.seed)
+    # the thorough tier is processed in batches of root constructors (memory: ~80k cases per batch)
+    batches = [(1, 99)] if quick else [(1, 6), (7, 12), (13, 18), (19, 24), (25, 30), (31, 37), (38, 44), (45, 49), (50, 52), (53, 99)]
+    totals = {"kinds": {}, "nvar": 0, "npv": 0, "notjudged": 0, "records": 0}
+    for lo, hi in batches:
+        run_batch(rep, rng, quick, lo, hi, totals)
+    kinds = totals["kinds"]
+    if kinds.get("tree", 0) < 5000 or kinds.get("rej", 0) < 1000 or kinds.get("delbr", 0) < 1000:
+        raise Machinery("enumeration too small: %r" % kinds)
+    for k, n in sorted(kinds.items()):
+        rep.spaces.append({"space": "C13 " + k + " (TLC-enumerated)", "cases": n, "complete": True})
+    rep.spaces.append({"space": "seeded layout variants of enumerated trees (redundant parentheses, trivia)", "cases": totals["nvar"],
+                       "complete": False})
+    rep.spaces.append({"space": "seeded layout variants of the statement-level programs", "cases": totals["npv"], "complete": False})
+    rep.evaluations = totals["records"]
+    rep.exhaustive = False          # the enumerated spaces are complete, the layout variants are seeded samples
+    rep.notes["not_judged_deletions_healed"] = totals["notjudged"]
+    rep.notes["rule"] = ("tree equality is judged by JsGrammar.ParseExpr on the token sequence; rejection only for the "
+                         "named classes (closing bracket / terminator deleted, non-reference target, unary base of **)")
+    rep.assumptions += ["JsGrammar.tla transcribes the ECMA-262 expression grammar for the supported operators (strict mode)",
+                        "calls and array literals as assignment targets, missing statement separators: not judged"]
+
+
+def run_batch(rep, rng, quick, lo, hi, totals):
     # 1. TLC enumerates the case space and checks the laws of the grammar on every case
-    res = tlc.run(rep.pid, "C13", ENUM_CFG, env={"TIER": rep.tier}, timeout=1500, tag="enum")
-    rep.add_tlc("C13.Enum+Laws(JsGrammar)", res)
+    res = tlc.run(rep.pid, "C13", ENUM_CFG, env={"TIER": rep.tier, "O1LO": lo, "O1HI": min(hi, 55)}, timeout=1500, tag="enum")
+    rep.add_tlc("C13.Enum+Laws(JsGrammar) roots %d..%d" % (lo, hi), res)
     seen, cases = set(), []
     for c in res.records:
         k = json.dumps(c, sort_keys=True)
         if k not in seen:
             seen.add(k)
             cases.append(c)
+    res.records = None
+    res.stdout = ""
+    del seen
     cases.sort(key=lambda c: json.dumps(c, sort_keys=True))
-    kinds = {}
+    kinds = totals["kinds"]
     for c in cases:
         kinds[c["kind"]] = kinds.get(c["kind"], 0) + 1
-    if kinds.get("tree", 0) < 5000 or kinds.get("rej", 0) < 1000 or kinds.get("delbr", 0) < 1000:
-        raise Machinery("enumeration too small: %r" % kinds)
-    for k, n in sorted(kinds.items()):
-        rep.spaces.append({"space": "C13 " + k + " (TLC-enumerated)", "cases": n, "complete": True})
 
     # 2. engine cases
     ecases, plan = [], []        # plan[i] = how to turn the engine result into judge records
@@ -88,7 +110,7 @@ def run(rep):
     pairs = [c for c in trees if c["a"][0] <= 2]
     triples = [c for c in trees if c["a"][0] > 2]
     chosen = [(c, j) for c in pairs for j in range(1 if quick else 4)]
-    ntr = 4000 if quick else 100000
+    ntr = 4000 if quick else 10000
     chosen += [(c, 0) for c in (rng.sample(triples, ntr) if len(triples) > ntr else triples)]
     nvar = 0
     for c, j in chosen:
@@ -108,9 +130,9 @@ def run(rep):
             add(parse=[s0, s1], mode="prog", evals=[PRE_PROG + s0, PRE_PROG + s1], what="pvariant", kind="pvariant", a=c["a"],
                 toks=c["toks"], lay=lay)
             npv += 1
-    rep.spaces.append({"space": "seeded layout variants of enumerated trees (redundant parentheses, trivia)", "cases": nvar,
-                       "complete": False})
-    rep.spaces.append({"space": "seeded layout variants of the statement-level programs", "cases": npv, "complete": False})
+    totals["nvar"] += nvar
+    totals["npv"] += npv
+    del cases, trees, pairs, triples, chosen
 
     results = engine.run_cases(rep.pid, ecases, driver=DRIVER)
     if len(results) != len(ecases):
@@ -135,14 +157,14 @@ def run(rep):
             recs.append(rec(r["id"], "pvariant", a=info["a"], toks=info["toks"], lay=info["lay"],
                             ast0=p0.get("ast", ""), ast1=p1.get("ast", "") if p1["o"] == "tree" else p1["o"],
                             ev0=norm_out(r["evals"][0]), ev1=norm_out(r["evals"][1])))
+    del results, plan
     verdicts, st, tr, wall = judge_retry(rep, recs)
     rep.add_judge(len(recs), st, tr)
-    rep.evaluations = len(recs)
+    totals["records"] += len(recs)
     got = {v["id"]: v for v in verdicts}
     if len(got) != len(recs):
         raise Machinery("judge returned %d verdicts for %d records" % (len(got), len(recs)))
     rmap = {r["id"]: r for r in recs}
-    notjudged = 0
     for i in sorted(got):
         v, r = got[i], rmap[i]
         if v["v"] == "pass":
@@ -150,18 +172,13 @@ def run(rep):
                 rep.sample({"case": show(r, ecases[i]), "verdict": "pass"})
             continue
         if v["v"] == "notjudged":
-            notjudged += 1
+            totals["notjudged"] += 1
             continue
         if v["v"] == "unsupported":
             raise Machinery("judge called a generated case unsupported (%s): %s" % (v["why"], show(r, ecases[i])))
         rep.mismatch(show(r, ecases[i]), {"why": v["why"], "kind": r["kind"], "a": r["a"], "src": (ecases[i]["parse"] or ecases[i]["evals"])[-1],
-                                          "dev": v.get("dev", ""), "act": r["act"], "ev0": r["ev0"], "ev1": r["ev1"], "case": {"m": r["kind"]}}, dev=v.get("dev", ""))
-    rep.exhaustive = False          # the enumerated spaces are complete, the layout variants are seeded samples
-    rep.notes["not_judged_deletions_healed"] = notjudged
-    rep.notes["rule"] = ("tree equality is judged by JsGrammar.ParseExpr on the token sequence; rejection only for the "
-                         "named classes (closing bracket / terminator deleted, non-reference target, unary base of **)")
-    rep.assumptions += ["JsGrammar.tla transcribes the ECMA-262 expression grammar for the supported operators (strict mode)",
-                        "calls and array literals as assignment targets, missing statement separators: not judged"]
+                                          "dev": v.get("dev", ""), "act": r["act"], "ev0": r["ev0"], "ev1": r["ev1"], "case": {"m": r["kind"]}},
+                     dev=v.get("dev", ""))
 
 
 def judge_retry(rep, recs):
